@@ -19,7 +19,10 @@ CONSTANTS N,          \* number of non-empty chunks
           Pool,       \* TRUE: chunk files are written by worker threads (executor)
           Proc,       \* "single" | "threaded"
           MaxFaults, MaxRetry,
-          Repaired
+          Repaired,
+          TwoPassPrune   \* TRUE: the first repair of the dropped-worker-failure defect, which looked at the finished futures in one pass
+                         \* and dropped the finished ones in a second pass (a worker failing in between was lost again); kept to
+                         \* show the invariants notice it.  FALSE: one pass, as the code is now.
 
 Chunks == 1..N
 NoDir == [exists |-> FALSE, mdPresent |-> FALSE, mdTrunc |-> FALSE, listed |-> {}, ended |-> FALSE, exc |-> FALSE,
@@ -129,9 +132,17 @@ Step(fail) ==
             /\ ~fail
             /\ IF Repaired /\ WorkerFailed
                THEN Raise /\ UNCHANGED <<final, temp, i, closed, pending, mdMem, wpc>>
+               ELSE IF Repaired /\ TwoPassPrune
+               THEN /\ pc' = "prune_drop"
+                    /\ UNCHANGED <<final, temp, i, closed, pending, mdMem, inExc, gotExc, wpc, outcome>>
                ELSE /\ pending' = {c \in pending : wpc[c] \notin {"done", "failed"}} \cup {i - 1}
                     /\ pc' = IF i > N THEN "close_wait" ELSE "submit"
                     /\ UNCHANGED <<final, temp, i, closed, mdMem, inExc, gotExc, wpc, outcome>>
+       [] pc = "prune_drop" ->    \* second pass of the two-pass variant: whatever is finished *now* is dropped unseen
+            /\ ~fail
+            /\ pending' = {c \in pending : wpc[c] \notin {"done", "failed"}} \cup {i - 1}
+            /\ pc' = IF i > N THEN "close_wait" ELSE "submit"
+            /\ UNCHANGED <<final, temp, i, closed, mdMem, inExc, gotExc, wpc, outcome>>
        [] pc = "close_wait" ->   \* close(): wait(pending) ...
             /\ ~fail
             /\ \A c \in pending : wpc[c] \in {"done", "failed"}
@@ -159,7 +170,7 @@ Step(fail) ==
             /\ UNCHANGED <<final, temp, i, closed, pending, mdMem, inExc, gotExc, wpc>>
        [] OTHER -> FALSE
 
-FaultablePc == pc \notin {"findwrite", "submit", "prune", "close_wait", "reraise", "finish", "end"}
+FaultablePc == pc \notin {"findwrite", "submit", "prune", "prune_drop", "close_wait", "reraise", "finish", "end"}
 SaverOK == Step(FALSE) /\ UNCHANGED <<faults, retries, everFailed, rmOrder, clean>>
 SaverFail == /\ faults < MaxFaults /\ FaultablePc
              /\ Step(TRUE) /\ faults' = faults + 1 /\ everFailed' = TRUE /\ clean' = FALSE /\ UNCHANGED <<retries, rmOrder>>
@@ -214,7 +225,7 @@ Spec == Init /\ [][Next]_vars
 
 (* ---------------------------------- P-level (C04) ---------------------------------- *)
 TypeOK == /\ pc \in {"findwrite", "rmfinal_md", "rmfinal_files", "rmfinal_dir", "rmtemp", "mktemp", "md_trunc0", "md_write0",
-                     "md_trunc", "md_write", "opentmp", "writetmp", "renamechunk", "submit", "prune", "close_wait", "close_trunc",
+                     "md_trunc", "md_write", "opentmp", "writetmp", "renamechunk", "submit", "prune", "prune_drop", "close_wait", "close_trunc",
                      "close_write", "renamedir", "reraise", "finish", "end"}
           /\ outcome \in {"running", "returned", "raised", "dead"}
 \* whatever is reported as stored loads completely and is the correct result; is_stored always answers
